@@ -745,8 +745,15 @@ func c18Context(c *Ctx) {
 				continue
 			}
 			// the line-start tests: comparisons of a trimmed text with ""
-			var cmps []*ssa.BinOp
+			var cmps []ssa.Value
 			eachInstr(fn, func(_ *ssa.BasicBlock, _ int, ins ssa.Instruction) {
+				// a helper of the package that is the line-start test itself: every return of it is such a comparison
+				if cl, ok := ins.(*ssa.Call); ok {
+					if sf := staticFn(cl); sf != nil && sf.Pkg == fn.Pkg && sf != fn && lineStartPredicate(sf) {
+						cmps = append(cmps, cl)
+					}
+					return
+				}
 				bo, ok := ins.(*ssa.BinOp)
 				if !ok || bo.Op != token.EQL {
 					return
@@ -781,7 +788,7 @@ func c18Context(c *Ctx) {
 					if d > 6 {
 						return false
 					}
-					if v == ssa.Value(cmp) || isConstBool(v, true) {
+					if v == cmp || isConstBool(v, true) {
 						return true
 					}
 					if ph, ok := v.(*ssa.Phi); ok {
@@ -805,7 +812,7 @@ func c18Context(c *Ctx) {
 						return
 					}
 					// only returns that lie behind the comparison (dominated by its block)
-					if !cmp.Block().Dominates(r.Block()) {
+					if !cmp.(ssa.Instruction).Block().Dominates(r.Block()) {
 						return
 					}
 					n++
@@ -962,10 +969,10 @@ func flowsToOutput(v ssa.Value) bool {
 
 // reachableWhenTrue: block b can be entered on an execution in which comparison cmp was true (b is reachable from the
 // true successor of the branch on cmp, or cmp is not branched on before b).
-func reachableWhenTrue(fn *ssa.Function, cmp *ssa.BinOp, b *ssa.BasicBlock) bool {
+func reachableWhenTrue(fn *ssa.Function, cmp ssa.Value, b *ssa.BasicBlock) bool {
 	var branch *ssa.BasicBlock
 	for _, blk := range fn.Blocks {
-		if iff := ifOf(blk); iff != nil && iff.Cond == ssa.Value(cmp) {
+		if iff := ifOf(blk); iff != nil && iff.Cond == cmp {
 			branch = blk
 		}
 	}
@@ -990,4 +997,42 @@ func reachableWhenTrue(fn *ssa.Function, cmp *ssa.BinOp, b *ssa.BasicBlock) bool
 		stack = append(stack, x.Succs...)
 	}
 	return false
+}
+
+// lineStartPredicate: sf returns, on every path, the comparison of a trimmed text with "" (the "nothing but white
+// space before the token on its line" test, extracted into a helper).
+func lineStartPredicate(sf *ssa.Function) bool {
+	if sf.Signature.Results().Len() != 1 {
+		return false
+	}
+	if bt, ok := sf.Signature.Results().At(0).Type().Underlying().(*types.Basic); !ok || bt.Kind() != types.Bool {
+		return false
+	}
+	n := 0
+	ok := true
+	eachInstr(sf, func(_ *ssa.BasicBlock, _ int, ins ssa.Instruction) {
+		r, isR := ins.(*ssa.Return)
+		if !isR {
+			return
+		}
+		n++
+		bo, isB := r.Results[0].(*ssa.BinOp)
+		if !isB || bo.Op != token.EQL {
+			ok = false
+			return
+		}
+		good := false
+		for _, pr := range [][2]ssa.Value{{bo.X, bo.Y}, {bo.Y, bo.X}} {
+			if sv, isS := constString(pr[1]); isS && sv == "" && derivesFrom(pr[0], func(v ssa.Value) bool {
+				cl, isC := v.(*ssa.Call)
+				return isC && callName(cl) == "strings.TrimSpace"
+			}) {
+				good = true
+			}
+		}
+		if !good {
+			ok = false
+		}
+	})
+	return ok && n > 0
 }
